@@ -66,6 +66,9 @@ class CompressedFileHandler(FileHandler):
                 self.entry.realencoding = self.entry.encoding
                 self.entry.encoding = None
                 self.entry.type = self.entry.guesstype()
+                # The size on disk is the compressed size; the length of what
+                # will be sent is not known in advance.
+                self.entry.size = None
         return self.entry
 
     def initdecompressors(self) -> None:
